@@ -12,6 +12,7 @@ from .. import e2e
 
 NAME = "inproc-h2-splits"
 L404 = 341
+HELLO_LEN = 24 + 9 + 9         # client connection preface + SETTINGS + SETTINGS ack
 
 
 class _Z:
@@ -86,11 +87,15 @@ class Case:
         self.raw = any(t.startswith("B:") for t in toks)
         self.nbytes = sum(len(s) for s in self.steps)
 
-    def tab(self):
-        return ";".join("%s=%s" % kv for kv in sorted(self.table.items())) or "-"
+    def tab(self, hello=None):
+        t = ";".join("%s=%s" % kv for kv in sorted(self.table.items()))
+        if hello:
+            # (read sizes of the client's hello; an entry the model's table parser drops: "hello" is not hex)
+            t = "hello=" + ".".join(str(n) for n in hello) + (";" + t if t else "")
+        return t or "-"
 
-    def line(self, segs_per_step):
-        out = ["h2b", self.tab()]
+    def line(self, segs_per_step, hello=None):
+        out = ["h2b", self.tab(hello)]
         for segs in segs_per_step:
             out += [hexseg(s) for s in segs if s] + ["q"]
         return " ".join(out)
@@ -117,14 +122,14 @@ def variants(case, rng, quick, exhaustive_k=0):
     if case.nbytes <= 3000:
         out.append(("octets", [[s[i:i + 1] for i in range(len(s))] for s in steps]))
     sizes = list(range(2, 18))
-    pick = rng.sample(sizes, 2 if quick else 8) + ([9, 10] if not quick else [rng.choice([9, 10])])
+    pick = rng.sample(sizes, 4 if quick else 6) + ([9, 10] if not quick else [rng.choice([9, 10])])
     for sz in pick:
         out.append(("chunk%d" % sz, [[s[i:i + sz] for i in range(0, len(s), sz)] for s in steps]))
-    for _ in range(1 if quick else 4):
+    for _ in range(2 if quick else 3):
         out.append(("random", [apply_cuts(s, rng.sample(range(1, len(s)), min(len(s) - 1, rng.randint(1, 6))))
                                if len(s) > 1 else [s] for s in steps]))
     # cuts at interesting places: each alone, and a few together
-    for _ in range(2 if quick else 6):
+    for _ in range(3 if quick else 4):
         segs = []
         for s in steps:
             pts = cut_points(s)
@@ -148,9 +153,12 @@ def parse_out(o):
     if " | " not in o:
         return None, None, ["unparsable"]
     body, tail = o.rsplit(" | ", 1)
-    for fl in ("UNDELIVERED", "BODY-CORRUPT"):
+    for fl in ("UNDELIVERED", "BODY-CORRUPT", "STALL"):
         if fl in body:
             flags.append(fl); body = body.replace(" " + fl, "")
+    if " HELLO-FAILED" in body:
+        body, code = body.split(" HELLO-FAILED")
+        flags.append("HELLO-FAILED" + code.strip())
     steps = [[] if s.strip() in ("-", "") else s.strip().split(" ") for s in body.split(" / ")]
     return steps, tail.strip() == "fin", flags
 
@@ -292,7 +300,7 @@ def run(ctx, c05):
     toklines = c05.gen(ctx, L404, c05.ERRBODY, rng=rng)
     if quick:
         # the exhaustive pair part is large: thin it further for this stream (the e2e stream keeps its share)
-        toklines = [l for l in toklines if l.count(" ") > 12 or rng.random() < 0.45]
+        toklines = [l for l in toklines if l.count(" ") > 12 or rng.random() < 0.7]
     spec = special_cases(c05, quick, rng)
     toklines = spec + toklines
     cases = []
@@ -302,20 +310,36 @@ def run(ctx, c05):
         except ValueError as ex:
             ctx.notes.append("inproc-h2-splits: case skipped (%s)" % ex)
     # which cases get all 2^k segmentations of their k most interesting cut points
-    k_ex = 9 if quick else 12
-    ex_idx = set(range(0, min(len(spec), len(cases)), 5 if quick else 2))
+    k_ex = 10 if quick else 12
+    ex_idx = set(range(0, min(len(spec), len(cases)), 5 if quick else 3))
     multi = [i for i, c in enumerate(cases) if i >= len(spec) and len(frame_starts(max(c.steps, key=len))) >= 2]
-    ex_idx |= set(rng.sample(multi, min(len(multi), 6 if quick else 40)))
+    ex_idx |= set(rng.sample(multi, min(len(multi), 10 if quick else 16)))
     lines, meta = [], []          # meta: (case index, kind, same_steps?, marks)
     for i, c in enumerate(cases):
         for kind, segs in variants(c, rng, quick, k_ex if i in ex_idx else 0):
             lines.append(c.line(segs)); meta.append((i, kind, True, None))
+        # the client's hello (connection preface, SETTINGS, SETTINGS ack: 42 octets) in several reads
+        whole = [[s] for s in c.steps]
+        if i == 0:
+            hellos = [[k, HELLO_LEN - k] for k in range(1, HELLO_LEN)]
+            hellos += [[1] * HELLO_LEN]
+            pairs = [(a, b) for a in range(1, HELLO_LEN) for b in range(a + 1, HELLO_LEN)]
+            for a, b in (rng.sample(pairs, 120) if quick else pairs):
+                hellos.append([a, b - a, HELLO_LEN - b])
+        elif rng.random() < (0.25 if quick else 0.5):
+            cuts = sorted(set(rng.choice([rng.randint(17, 25), rng.randint(1, HELLO_LEN - 1)])
+                              for _ in range(rng.randint(1, 3))))
+            hellos = [[b - a for a, b in zip([0] + cuts, cuts + [HELLO_LEN])]]
+        else:
+            hellos = []
+        for h in hellos:
+            lines.append(c.line(whole, hello=h)); meta.append((i, "hello", True, None))
         # the real schedule: each segment is a read followed by stream processing
         # (not for blocks of >= 32 CONTINUATION frames: the graceful GOAWAY of that heuristic goes out when
         #  the 32nd frame is complete, the model announces it when the block is)
         if any(sum(1 for f in frame_starts(s) if s[f + 3:f + 4] == b"\x09") >= 32 for s in c.steps):
             continue
-        for _ in range(1 if quick else 3):
+        for _ in range(2):
             segs = [apply_cuts(s, rng.sample(cut_points(s) or [1], 1) + ([rng.randrange(1, len(s))] if len(s) > 1 else []))
                     if len(s) > 1 else [s] for s in c.steps]
             ln, marks = c.line_own_steps(segs)
@@ -325,7 +349,7 @@ def run(ctx, c05):
     crashed = [j for j, o in enumerate(impl) if o is None]
     for j in crashed[:3]:
         o1, rc1, err1 = C.run_lines([exe], [lines[j]])
-        ctx.violation("crash:%s:%s" % (NAME, (err1 or "")[-400:].split("SUMMARY")[-1][:80]),
+        ctx.violation("crash:%s:%s" % (NAME, crash_sig(err1 or "")),
                       "h2.c crashed / sanitizer report while reading the client octets in the given segments",
                       {"property": ctx.pid, "kind": "sanitizer-or-crash", "correspondence": NAME,
                        "input": lines[j], "tokens": cases[meta[j][0]].tokline, "segmentation": meta[j][1],
@@ -362,6 +386,17 @@ def run(ctx, c05):
             verdict = "harness reports %s" % ",".join(flags)
             if "BODY-CORRUPT" in flags:
                 verdict = "octets that are not DATA payload (Pad Length / padding / frame header) reached a request body"
+            if "STALL" in flags:
+                verdict = ("the connection stops making progress: input is waiting, but read interest is off and the "
+                           "connection is not scheduled")
+            hf = [f for f in flags if f.startswith("HELLO-FAILED")]
+            if hf:
+                code = hf[0][len("HELLO-FAILED"):]
+                verdict = ("preface-depends-on-read-segmentation: the client's connection preface + SETTINGS, split "
+                           "across reads, ended in %s; unsplit it is accepted" %
+                           ("a connection error" if code in ("-1",) else
+                            "GOAWAY(%s)" % c05.E_NAME.get(int(code), code) if code.lstrip("-").isdigit() and int(code) > 0
+                            else "an unfinished set-up"))
         else:
             frames_steps, bad = [], None
             for s in steps:
@@ -380,7 +415,8 @@ def run(ctx, c05):
             elif same:
                 verdict = c05.monitor([[] for _ in steps], frames_steps, raw=True)
         if verdict:
-            sig = "oracle:%s:%s" % (NAME, c05.sig_of(verdict))
+            sig = "oracle:%s:%s" % (NAME, "preface-depends-on-read-segmentation" if verdict.startswith("preface-")
+                                    else c05.sig_of(verdict))
             ctx.violation(sig, verdict, {"property": ctx.pid, "kind": "property-oracle", "correspondence": NAME,
                                          "input": line, "tokens": case.tokline, "segmentation": kind,
                                          "impl_obs": io, "oracle_verdict": verdict}, found=True)
@@ -393,8 +429,8 @@ def run(ctx, c05):
                 nident += 1
                 reported.add(("ident", ci)); reported.add(ci)
                 l0, k0, o0 = first_out[ci]
-                d35 = "frame-size" if "G0,6" in (o0 + io) else "outcome"
-                ctx.violation("oracle:%s:%s-depends-on-read-segmentation" % (NAME, d35),
+                what = "frame-size" if "G0,6" in (o0 + io) else "outcome"
+                ctx.violation("oracle:%s:%s-depends-on-read-segmentation" % (NAME, what),
                               "the same client octets give different outcomes under two read segmentations",
                               {"property": ctx.pid, "kind": "property-oracle", "correspondence": NAME,
                                "input": [l0, line], "tokens": case.tokline, "segmentation": [k0, kind],
@@ -426,9 +462,26 @@ def run(ctx, c05):
     ctx.streams.append({"name": NAME, "cases": len(lines), "byte_streams": len(cases), "disagreements": ndis,
                         "segmentation_dependent": nident, "crashes": len(crashed),
                         "wall_s": round(time.time() - t0, 2)})
+    ctx.exhaustive = {NAME: "all 2^%d subsets of the %d most interesting cut points (frame boundary, header end, "
+                            "Pad Length octet, +-1, inside payloads) of %d byte streams; every byte stream also in "
+                            "one read and octet by octet" % (k_ex, k_ex, len(ex_idx)),
+                      "e2e-h2-frames": "every frame sequence of length <= 2 over the alphabet after three prefixes "
+                                       "(thinned in the quick tier)"}
     ctx.notes.append("%s: %d byte streams (%d token scenarios of the e2e generator + %d byte-level ones), %d "
                      "segmentations; all 2^%d cut subsets for %d streams" %
                      (NAME, len(cases), len(cases) - len(spec), len(spec), len(lines), k_ex, len(ex_idx)))
+
+
+def crash_sig(err):
+    import re
+    m = re.search(r"SUMMARY: \w+: ([\w-]+) .*? in (\w+)", err)
+    if m:
+        return "%s:%s" % (m.group(1), m.group(2))
+    m = re.search(r"runtime error: ([^\n]{0,60})", err)
+    if m:
+        return re.sub(r"\d+", "N", m.group(1))
+    m = re.search(r"h_h2: ([^\n]{0,60})", err)
+    return m.group(1) if m else "no-report"
 
 
 def run_sharded(cmd, lines):
@@ -463,15 +516,34 @@ def replay(ctx, c05, rep):
     io, rc, e = C.run_lines([exe], lines)
     mo, mrc, me = C.run_model("h2", lines)
     bad = rc != 0
+    toks = rep.get("tokens", "")
+    sent, cur = [], []
+    for t in toks.split(" ")[1:]:
+        if t == "q":
+            sent.append(cur); cur = []
+        elif not t.startswith("T:"):
+            cur.append(t)
+    raw = any(t.startswith("B:") for st in sent for t in st)
     for k, l in enumerate(lines):
         print("input :", l[:2000])
         print("impl  :", io[k] if k < len(io) else "<crash>")
         print("model :", mo[k] if k < len(mo) else "?")
-        if k >= len(io) or k >= len(mo) or io[k] != mo[k]:
+        if k >= len(io) or k >= len(mo) or canon_out(c05, io[k]) != canon_out(c05, mo[k]):
+            print("        implementation and model differ")
             bad = True
+        if k < len(io):
+            steps, fin, flags = parse_out(io[k])
+            if flags:
+                print("        harness flags:", flags); bad = True
+            elif steps is not None and not raw and len(steps) == len(sent):
+                frs = [pseudo_frames(st)[0] for st in steps]
+                v = None if any(f is None for f in frs) else (
+                    c05.monitor(sent, frs) or c05.client_oracle(sent, [c05.canon_model(" ".join(st)) for st in steps], fin))
+                print("oracle:", v)
+                bad = bad or bool(v)
     if rc != 0:
         print(e[-3000:])
-    if len(set(io)) > 1:
+    if len(set(str(canon_out(c05, o)) for o in io)) > 1:
         print("outcome depends on the segmentation")
         bad = True
     if bad:
